@@ -5,6 +5,7 @@ use messages::MessagePayload;
 use verif_hooks::{push_bytes, push_u32, push_u64};
 
 fn fingerprint_header(header: &ChunkHeader, out: &mut Vec<u8>) {
+    #[cfg(not(feature = "verif-lax"))]
     let ChunkHeader {
         chunk_stream_id,
         timestamp,
@@ -13,6 +14,17 @@ fn fingerprint_header(header: &ChunkHeader, out: &mut Vec<u8>) {
         message_type_id,
         message_stream_id,
         can_be_dropped,
+    } = header;
+    #[cfg(feature = "verif-lax")]
+    let ChunkHeader {
+        chunk_stream_id,
+        timestamp,
+        timestamp_field,
+        message_length,
+        message_type_id,
+        message_stream_id,
+        can_be_dropped,
+        ..
     } = header;
 
     push_u32(out, *chunk_stream_id);
@@ -26,6 +38,7 @@ fn fingerprint_header(header: &ChunkHeader, out: &mut Vec<u8>) {
 
 impl ChunkDeserializer {
     pub fn verif_fingerprint(&self, out: &mut Vec<u8>) {
+        #[cfg(not(feature = "verif-lax"))]
         let ChunkDeserializer {
             max_chunk_size,
             current_header_format,
@@ -36,6 +49,19 @@ impl ChunkDeserializer {
             buffer,
             previous_headers,
             partial_payloads,
+        } = self;
+        #[cfg(feature = "verif-lax")]
+        let ChunkDeserializer {
+            max_chunk_size,
+            current_header_format,
+            current_header,
+            current_stage,
+            current_payload,
+            current_payload_data,
+            buffer,
+            previous_headers,
+            partial_payloads,
+            ..
         } = self;
 
         push_u64(out, *max_chunk_size as u64);
@@ -56,11 +82,20 @@ impl ChunkDeserializer {
             ParseStage::ExtendedTimestamp => 6,
         });
 
+        #[cfg(not(feature = "verif-lax"))]
         let MessagePayload {
             timestamp,
             type_id,
             message_stream_id,
             data,
+        } = current_payload;
+        #[cfg(feature = "verif-lax")]
+        let MessagePayload {
+            timestamp,
+            type_id,
+            message_stream_id,
+            data,
+            ..
         } = current_payload;
         push_u32(out, timestamp.value);
         out.push(*type_id);
